@@ -99,6 +99,7 @@ def run_case(case: Dict[str, Any], ctx) -> None:
     rng = rng_for(case["seed"], "prog")
     prog = progs.gen_program(rng, family_profile(case["family"]))
     m, src = progs.build_module(prog, case["seed"])
+    ctx.sample({"emitted_source": src, "chain": case["chain"], "format": case["fmt"]})
     inputs = progs.make_inputs(prog, case["seed"] + 5)
     chain, fmt = case["chain"], case["fmt"]
     key = "C17"
